@@ -23,6 +23,11 @@ SOURCE_CALLS = [
     (re.compile(r"^<std::fs::File as std::io::Read>::read(_to_string|_to_end)?$"), "file contents read back"),
 ]
 
+# the clock: text rendered from it has a value-dependent length ([subsecond] prints as many digits as needed), so slicing such text at a
+# constant byte offset is a panic that no test sees; label CLOCK arms byte-offset sinks only
+CLOCK_CALLS = [(re.compile(r"^time::OffsetDateTime::now_(utc|local)$"), "the clock (OffsetDateTime::now_utc)"),
+               (re.compile(r"^std::time::SystemTime::now$"), "the clock (SystemTime::now)")]
+
 UNWRAPS = ("Option::unwrap", "Option::expect", "Result::unwrap", "Result::expect", "Result::unwrap_err", "Result::expect_err")
 # std / crate APIs documented to panic on bad arguments: name -> argument indexes whose value can trigger the panic
 PANICKY = {
@@ -74,6 +79,7 @@ def run(F, R, tier):
     # ------------------------------------------------------------------ taint sources
     claim_seeds = {}
     call_seeds = {}
+    clock_seeds = {}
     for fid in reach_ws:
         fn = F.fns[fid]
         B = None
@@ -96,12 +102,17 @@ def run(F, R, tier):
                 for rx, what in SOURCE_CALLS:
                     if rx.search(c):
                         call_seeds.setdefault(fid, []).append((t["dest"]["l"], taint.place_path(t["dest"]), what))
+                for rx, what in CLOCK_CALLS:
+                    if rx.search(c):
+                        clock_seeds.setdefault(fid, []).append((t["dest"]["l"], taint.place_path(t["dest"]), what))
 
     def seed_hook(E, B):
         for (l, p, what) in claim_seeds.get(B.id, ()):
             E.add(B.id, l, p, "EXT", (what, None, B.fn["line"]))
         for (l, p, what) in call_seeds.get(B.id, ()):
             E.add(B.id, l, p, "EXT", (what, None, B.fn["line"]))
+        for (l, p, what) in clock_seeds.get(B.id, ()):
+            E.add(B.id, l, p, "CLOCK", (what, None, B.fn["line"]))
         if B.id == SVC or B.id == SVC + "::{closure#0}":
             E.add(B.id, 2, (), "EXT", ("client HTTP request", None, B.fn["line"]))
 
@@ -187,7 +198,10 @@ def run(F, R, tier):
     safe = tbl.get("safe", {})
     armed = {}
     for key, f in E.findings.items():
-        if f["label"] != "EXT":
+        if f["label"] == "CLOCK":
+            if not is_byte_offset_site(f):
+                continue
+        elif f["label"] != "EXT":
             continue
         if f["fn"] not in reach_ws:
             continue
